@@ -157,6 +157,16 @@ def _curved_points(rng, c, ax, n):
     # exercise all octants relative to the centre and points sharing coordinates with it
     k = int(rng.integers(3))
     p[rng.random(n) < 0.1, k] = c[k]
+    # exact ties with the shape's own lengths: points whose distance from the centre *equals* one of the semi-axes but lies
+    # along another axis or a Pythagorean direction (3,4,0)/5 - far from the surface unless the axes are equal
+    ties = []
+    for i in range(3):
+        for d in (np.eye(3)[(i + 1) % 3], np.eye(3)[(i + 2) % 3], np.array([0.6, 0.8, 0.0]), np.array([0.0, -0.6, 0.8]), np.array([-0.8, 0.0, 0.6])):
+            q = c + ax[i] * d
+            ties.append(q)
+    ties = np.array(ties)
+    m = min(len(ties), max(1, n // 8))
+    p[:m] = ties[rng.choice(len(ties), size=m, replace=False)]
     return p
 
 
